@@ -338,6 +338,28 @@ func (fr *Frame) execInstr(in ssa.Instruction) bool {
 		fr.set(x, Val{S: "0"})
 	case *ssa.Next:
 		v := e.freshVal(x.Type(), "next_"+x.Name(), fr.pc)
+		if rg, ok := x.Iter.(*ssa.Range); ok && !x.IsString {
+			if mt, isMap := rg.X.Type().Underlying().(*types.Map); isMap {
+				// an element delivered by the iteration is an entry of the map
+				if ks, okk := e.mapSorts(rg.X.Type()); okk {
+					m := fr.val(rg.X)
+					MT := rg.X.Type()
+					kterm := v.F[1].leaves()
+					if len(kterm) == 1 {
+						pres := sel(sel(e.heapGet(fr.st, "M:"+typeKey(MT)+".present", arrSort(sRef, arrSort(ks, sBool))), m.S), kterm[0])
+						var eqs []string
+						vl := v.F[2].leaves()
+						for i, srt := range leafSorts(mt.Elem()) {
+							arr := e.heapGet(fr.st, fmt.Sprintf("M:%s.val#%d", typeKey(MT), i), arrSort(sRef, arrSort(ks, srt)))
+							if i < len(vl) {
+								eqs = append(eqs, mkEq(vl[i], sel(sel(arr, m.S), kterm[0])))
+							}
+						}
+						e.assume(mkImp(mkAnd(fr.pc, v.F[0].S), mkAnd(append([]string{pres, mkNot(mkEq(m.S, "0"))}, eqs...)...)))
+					}
+				}
+			}
+		}
 		fr.set(x, v)
 	case *ssa.Select:
 		v := e.freshVal(x.Type(), "select_"+x.Name(), fr.pc)
@@ -455,6 +477,13 @@ func (fr *Frame) execUnOp(x *ssa.UnOp) {
 		if _, isIface := T.Underlying().(*types.Interface); isIface {
 			// A2 covers interface-typed struct fields too (not locals, elements or globals)
 			r.NN = v.A != nil && v.A.Kind == aField && !e.L.isNullableAddr(v.A)
+		}
+		if scalarSort(T) == sIface && kindOf(T) == kScalar {
+			// store forwarding recovered the very constant that was stored: its dynamic type is known
+			if sv, ok := e.ifaceStatic[r.S]; ok {
+				r.Dyn, r.DynV = sv.Dyn, sv.DynV
+				r.NN = true
+			}
 		}
 		e.assumeRefsOld(r, fr.pc, fr.st.alloc)
 		e.assumeTypeInv(r, fr.pc)
